@@ -3,6 +3,7 @@ package gen
 import (
 	"encoding/json"
 	"fmt"
+	"image/color"
 	"math"
 	"sort"
 	"strconv"
@@ -72,6 +73,22 @@ var MaterialPool = func() []*modeling.Material {
 // SpacedMaterials are materials whose names contain spaces (like the library's own "Default Diffuse"),
 // kept apart from MaterialPool because the OBJ/MTL text formats strip spaces from names.
 var SpacedMaterials = []*modeling.Material{{Name: "Default Diffuse"}, {Name: "mat with  spaces"}}
+
+// TexturedMaterial returns a NEW material (fresh pointers on every call, so that a writer that
+// edits what a material points to cannot leak from one case into the next) with colours and
+// texture URIs the way asset pipelines write them: Windows separators, spaces, a drive letter.
+func TexturedMaterial(k int) *modeling.Material {
+	str := func(s string) *string { return &s }
+	switch ((k % 3) + 3) % 3 {
+	case 0:
+		return &modeling.Material{Name: "Default Diffuse", DiffuseColor: color.RGBA{R: 200, G: 100, B: 50, A: 255}, SpecularHighlight: 100, OpticalDensity: 1,
+			ColorTextureURI: str("textures\\wood grain.png"), NormalTextureURI: str("C:\\maps\\wood_n.png")}
+	case 1:
+		return &modeling.Material{Name: "mat with  spaces", AmbientColor: color.Black, SpecularColor: color.White, Transparency: 0.25,
+			SpecularTextureURI: str("spec map.png"), ColorTextureURI: str("..\\shared/albedo%20v2.PNG")}
+	}
+	return &modeling.Material{Name: "plain", ColorTextureURI: str("a/b/c.png")}
+}
 
 // SpecialVal: like DefaultVal but with a share of NaN, infinities, negative zero and extreme magnitudes.
 func SpecialVal() *rapid.Generator[float64] {
